@@ -140,7 +140,7 @@ class IPMW:
             self._check_monotone()
 
             # Check if uniform
-            self.missing, overall_uniform = self._check_overall_uniform(df=self.df, miss_vars=self.missing)
+            first_missing, overall_uniform = self._check_overall_uniform(df=self.df, miss_vars=self.missing)
 
             # Uniform monotone missing can safely be treated as only a single variable
             if overall_uniform:
@@ -148,8 +148,13 @@ class IPMW:
                               "special case of monotone missing data, where weights need only depend on a single "
                               "variable. The corresponding weights will be generated using the first specified "
                               "regression model")
-                self._single_variable(list(model_denominator)[0],
-                                      model_numerator=list(model_numerator)[0], print_results=print_results)
+                all_missing = self.missing  # keep the list: the models can be specified again
+                self.missing = first_missing
+                try:
+                    self._single_variable(list(model_denominator)[0],
+                                          model_numerator=list(model_numerator)[0], print_results=print_results)
+                finally:
+                    self.missing = all_missing
 
             # When not the special case of uniform monotone, use this procedure
             else:
